@@ -6,6 +6,7 @@
    normal form is C14's validate_idempotent / validate_clean. *)
 From Coq Require Import List ZArith NArith Bool Floats.
 From WTF Require Import Model.Validate Model.Text Model.Platform Model.Engine Proofs.EngineProofs.
+From WTF Require Proofs.Corollaries.
 Import ListNotations.
 
 (* the tokenizer ignores (ASCII) letter case *)
@@ -15,7 +16,7 @@ Proof. exact tokenize_case. Qed.
 (* two queries with the same tokens get the same answer from the index / NLP pipeline (same oracles) *)
 Theorem search_case_invariant_partial : forall E cmds q q' o nl,
   lower_ascii q = lower_ascii q' -> search_universal E cmds q o nl = search_universal E cmds q' o nl.
-Proof. intros E cmds q q' o nl H. apply search_depends_on_tokens. apply tokenize_case. exact H. Qed.
+Proof. exact Corollaries.search_same_lower. Qed.
 
 Print Assumptions tokenize_case_invariant.
 Print Assumptions search_case_invariant_partial.
